@@ -30,6 +30,10 @@ impl MemTable {
         self.tombstoned_nodes.insert(node);
     }
 
+    pub fn is_node_tombstoned(&self, node: InternalNodeId) -> bool {
+        self.tombstoned_nodes.contains(&node)
+    }
+
     pub fn tombstone_edge(&mut self, src: InternalNodeId, rel: RelTypeId, dst: InternalNodeId) {
         let key = EdgeKey { src, rel, dst };
         if let Some(edges) = self.out.get_mut(&src) {
